@@ -3,24 +3,10 @@ C01 main theorem, fragment F3, specification side: the `@fold` clause of `evalEd
 `toOption`, in closed form.
 -/
 import TrustfallModel.Proofs.InterpSpec3.Fold
+import TrustfallModel.Proofs.InterpSpec3.HypsDef3
 
 namespace TF.InterpSpec
 open TF TF.Engine TF.Spec
-
-def countTagNames : List FDir → List Name
-  | [] => []
-  | .countTag n :: rest => n :: countTagNames rest
-  | _ :: rest => countTagNames rest
-
-def countOutNames : List FDir → List Name
-  | [] => []
-  | .countOutput n :: rest => n :: countOutNames rest
-  | _ :: rest => countOutNames rest
-
-def countFilterPairs : List FDir → List (FOp × QArg)
-  | [] => []
-  | .countFilter op arg :: rest => (op, arg) :: countFilterPairs rest
-  | _ :: rest => countFilterPairs rest
 
 /-- The result assignment of a fold that exists, with `count` elements `elems`. -/
 def foldAsg (a : Asg) (fds : List FDir) (names : List Name) (elems : List Asg) : Asg :=
